@@ -1264,3 +1264,20 @@ func predicateExpr(v ssa.Value) ssa.Value {
 	}
 	return v
 }
+
+// rshort: receiver-qualified short name of a function ("DiscoveryStrategy.GetRoutableEndpoints", "BuildTargetURL").
+func rshort(fn *ssa.Function) string {
+	if fn == nil {
+		return ""
+	}
+	name := cshort(fn)
+	if fn.Signature != nil && fn.Signature.Recv() != nil {
+		if rn := recvTypeName(fn.Signature.Recv().Type()); rn != "" {
+			return rn + "." + name
+		}
+	}
+	if fn.Parent() != nil {
+		return rshort(fn.Parent()) + "$"
+	}
+	return name
+}
